@@ -409,7 +409,9 @@ func TestC24_HostileCounts(t *testing.T) {
 func TestC24_Truncation(t *testing.T) {
 	setup()
 	ev := c24ev()
-	ev.Floor("trunc:msg", "trunc", 0.01)
+	// truncations that still end on a frame boundary are ~1% of all truncations by construction: the floor
+	// only guards against the class vanishing (0.01 itself starved at one seed with 0.97%)
+	ev.Floor("trunc:msg", "trunc", 0.004)
 	harn.Check(t, 1200, 12000, func(t *rapid.T) {
 		g := genMsg(t)
 		cuts := map[int]bool{}
